@@ -8,10 +8,13 @@ package evaluator
 
 //@ global ErrPanic != nil && ErrIndexValue != nil && ErrBounds != nil && ErrSlice != nil && ErrMapKey != nil && ErrVarNotSet != nil && ErrBadArguments != nil && ErrBadRepetition != nil && ErrAnyConversion != nil && ErrRangevalue != nil && ErrStopped != nil && ErrTest != nil && ErrInternal != nil && ErrType != nil && ErrOperation != nil && ErrUnknownNode != nil && ErrRangeType != nil && ErrAssignmentTarget != nil
 //@ global wraps(ErrIndexValue, ErrPanic) && wraps(ErrBounds, ErrPanic) && wraps(ErrSlice, ErrPanic) && wraps(ErrMapKey, ErrPanic)
+//@ global wraps(ErrVarNotSet, ErrPanic) && wraps(ErrBadArguments, ErrPanic) && wraps(ErrBadRepetition, ErrPanic) && wraps(ErrAnyConversion, ErrPanic) && wraps(ErrRangevalue, ErrPanic)
+//@ global wraps(ErrType, ErrInternal) && wraps(ErrOperation, ErrInternal) && wraps(ErrUnknownNode, ErrInternal) && wraps(ErrRangeType, ErrInternal) && wraps(ErrAssignmentTarget, ErrInternal)
 //@ global !wraps(ErrIndexValue, ErrBounds) && !wraps(ErrBounds, ErrIndexValue) && !wraps(ErrSlice, ErrBounds) && !wraps(ErrSlice, ErrIndexValue)
 
 //@ typeinv arrayVal: self.Elements != nil && forall(j, int, 0 <= j && j < len(*self.Elements) ==> okValue((*self.Elements)[j]))
 //@ typeinv mapVal: self.Order != nil && self.Pairs != nil && forall(i, int, 0 <= i && i < len(*self.Order) ==> has(self.Pairs, (*self.Order)[i]))
+//@ typeinv anyVal: self.T != nil
 //@ typeinv stringVal: base(self.runeSlice) == 0 || (len(self.runeSlice) == rlen(self.V) && off(self.runeSlice) == 0 && contents(self.runeSlice) == runes(self.V))
 
 // ---- spec functions (docs/spec.md, Index and Slice) ----
@@ -103,7 +106,6 @@ package evaluator
 //@   props C11 C09 C02
 //@   requires start != nil ==> is(start, *numVal) && start.(*numVal) != nil
 //@   requires end != nil ==> is(end, *numVal) && end.(*numVal) != nil
-//@   requires forall(j, int, 0 <= j && j < len(*a.Elements) ==> okValue((*a.Elements)[j]))
 //@   let n = len(*a.Elements)
 //@   let sv = start.(*numVal).V
 //@   let ev = end.(*numVal).V
